@@ -9,6 +9,8 @@
 package main
 
 import (
+	"crawshaw.io/sqlite"
+	"crawshaw.io/sqlite/sqlitex"
 	"sync"
 	"bytes"
 	"context"
@@ -140,6 +142,31 @@ func (d *driver) newInstance(keyID int, name string, pool int, cache string) *lo
 		Log:           slog.New(slog.NewTextHandler(io.Discard, nil)),
 		NotAfterStart: time.Date(2024, 1, 1, 0, 0, 0, 0, time.UTC),
 		NotAfterLimit: time.Date(2099, 1, 1, 0, 0, 0, 0, time.UTC),
+	}
+	if realBackends {
+		lg := slog.New(slog.NewTextHandler(io.Discard, nil))
+		lb, err := ctlog.NewLocalBackend(context.Background(), filepath.Join(d.dir, "store"), lg)
+		if err != nil {
+			panic(err)
+		}
+		lockPath := filepath.Join(d.dir, "lock.db")
+		if _, serr := os.Stat(lockPath); serr != nil {
+			// the operator creates the lock database by hand (the backend refuses to)
+			c, cerr := sqlite.OpenConn(lockPath, 0)
+			if cerr != nil {
+				panic(cerr)
+			}
+			if cerr := sqlitex.ExecTransient(c, "CREATE TABLE checkpoints (logID BLOB PRIMARY KEY, body BLOB NOT NULL) STRICT", nil); cerr != nil {
+				panic(cerr)
+			}
+			c.Close()
+		}
+		sq, err := ctlog.NewSQLiteBackend(context.Background(), lockPath, lg)
+		if err != nil {
+			panic(err)
+		}
+		in.realB, in.realL = lb, sq
+		d.stats["real-backend-instances"]++
 	}
 	li := &logInst{in: in, cfg: cfg, keyID: keyID, name: name, pool: pool, cache: cache}
 	d.insts = append(d.insts, li)
@@ -665,6 +692,7 @@ func main() {
 	outPath := flag.String("out", "", "history file")
 	only := flag.String("scenario", "", "run only this scenario kind")
 	enumBase := flag.Int("enumbase", 0, "first history number for systematic scenarios")
+	flag.BoolVar(&realBackends, "real", false, "perform every storage and lock operation on a real LocalBackend directory and a real SQLite lock database as well")
 	flag.StringVar(&recomputeBin, "recompute-bin", "", "path of the cmd/recompute-cache binary built from /repo")
 	flag.Parse()
 	// LoadLog leaks its SQLite connections when it fails after opening the cache, and the sqlite
@@ -724,7 +752,10 @@ func main() {
 	_ = failures
 }
 
+var realBackends bool
+
 func newDriver(seed int64, dir string) *driver {
+	os.MkdirAll(filepath.Join(dir, "store"), 0o755)
 	os.MkdirAll(dir, 0o755)
 	d := &driver{r: mrand.New(mrand.NewSource(seed)), seqs: map[int64]*logInst{}, dir: dir, stats: map[string]int{}}
 	for i := 0; i < 2; i++ {
